@@ -466,9 +466,70 @@ def check(rep):
                     'comparable cases disagree)' % (l, iv, mv, len(idx) - agree, len(idx)))
             # a disagreement is a concrete input: the real client does something the proved decision logic does not
             rep.add_violation('model-mismatch', text, dict(kind='input', case=l, observed=io, expected=mo))
+    second_session_stage(rep, ctx)
     if not rep.violations:
         ctx.report_broken()
     return rep
+
+
+def second_session_stage(rep, ctx):
+    """GG cases: a first client negotiates over one path and falls silent; 61+ s later the server hands its slot to a second
+    client that negotiates over ANOTHER path.  What the second client settles on must survive its path exactly as if the
+    server were fresh: same oracle (i)/(ii) and same model prediction as for the G case of the second session alone."""
+    if 'hs' not in ctx.exe:
+        return
+    rng = vlib.rng_for(rep.seed, 'c11-second')
+    ident = (0, 0, 0)
+    n = 24 if rep.tier == 'quick' else 240
+    firsts, seconds = [], []
+    for k in range(n):
+        # first session: a clean or nearly clean path (ends on the highest codecs), sometimes a forced type / codec
+        a = Case(rng.randrange(1, 1 << 30), q=ident, a=ident, mask=rng.choice([0x7f, 0x7e, 0x7c, 0x60]), limit=rng.choice([0, 4096]),
+                 edns=1, qtype=rng.choice([0, 0] + TYPES), downenc=rng.choice([32, 32] + list(LETTERS)), npkts=1, block='second-session')
+        # second session: a restrictive path on the query side and/or the answer side
+        b = Case(rng.randrange(1, 1 << 30), q=rng.choice([(1, 0, 0), (2, 0, 0), (1, 1, 1), (0, 1, 0), (1, 2, 2), (0, 0, 1), ident]),
+                 a=rng.choice([ident, (1, 1, 1), (2, 0, 0), (0, 1, 0), (1, 2, 2)]), mask=rng.choice(MASKS), limit=rng.choice(LIMITS),
+                 edns=rng.randrange(2), npkts=3, block='second-session')
+        if not b.deterministic():
+            continue
+        firsts.append(a)
+        seconds.append(b)
+    lines = ['GG' + a.line()[1:] + b.line()[1:] for a, b in zip(firsts, seconds)]
+    rc, impl, err = run_pool(ctx.exe['hs'], lines, ctx.work, 'second', chunk=4)
+    if rc != 0:
+        bad = next((l for l, o in zip(lines, impl) if o == '<NO-OUTPUT>'), None)
+        rep.add_violation('impl-crash', 'handshake harness exited with %d on case %r: %s' % (rc, bad, err[-300:]),
+                          dict(kind='input', case=bad, observed=err[-2000:]))
+    # the same second sessions alone on a fresh server (reference of the implementation itself) and in the model
+    rc1, alone, err1 = run_pool(ctx.exe['hs'], [b.line() for b in seconds], ctx.work, 'second-alone', chunk=8)
+    pred = {}
+    if ctx.model:
+        keys = sorted(set(b.model_key() for b in seconds if comparable(b)))
+        rc2, mout, err2 = run_pool(ctx.model, keys, ctx.work, 'second-model', chunk=6)
+        pred = dict(zip(keys, mout))
+    okc = 0
+    for a, b, l, o, oa in zip(firsts, seconds, lines, impl, alone):
+        v = oracle(b, o)
+        if v and not oracle(b, oa):
+            key, what = v
+            rep.add_violation('second-session:' + key, 'second client on a slot the server took back from a silent first client: ' + what +
+                              '; alone on a fresh server the same session is fine (%s); case: %s' % (oa[:120], l),
+                              dict(kind='input', case=l, observed=o, expected=oa, block='second-session'))
+            break
+        if comparable(b) and b.model_key() in pred:
+            iv, mv = impl_view(o), model_view(pred[b.model_key()])
+            if iv != mv and impl_view(oa) == mv:
+                rep.add_violation('second-session:model-mismatch', 'second client on a re-used slot negotiates %r, the model (and the same session '
+                                  'on a fresh server) %r; case: %s' % (iv, mv, l), dict(kind='input', case=l, observed=o, expected=pred[b.model_key()]))
+                break
+        r = parse_out(o)
+        if r is not None and r['rv'] == 0:
+            okc += 1
+    rep.cov['second_session'] = dict(cases=len(lines), handshakes_ok=okc)
+    rep.cov['evaluations'] = rep.cov.get('evaluations', 0) + 2 * len(lines)
+    rep.cov['rule'] += ('. Second-session stage: %d GG cases -- a first client over a clean path (highest codecs) falls silent, the clock passes '
+                        'the 60 s slot time-out, a second client negotiates over a restrictive path on the SAME server: oracle (i)/(ii) and the '
+                        'model prediction of the second session alone must hold' % len(lines))
 
 
 def replay(rp):
